@@ -412,7 +412,7 @@ func countSentinels(err error) (unknownType, inference int) {
 	return
 }
 
-var recLists = ev.New("TestPropStepLists", "pipelines whose step list holds 1-150 elements (rows of the rule table, scalar steps, group steps holding further rows) as JSON-flow or block YAML: every element's kind equals the rule table's in its position, and the returned warning tree holds exactly one unknown-type sentinel per element the table sends to 'unknown type' and one inference sentinel per element it sends to 'failed inference' (none when every element is known) - no element's warning is dropped or merged however many precede it; non-trivial = >= 33 unknown elements in one list, or unknown elements inside a group; distinct by document text")
+var recLists = ev.New("TestPropStepLists", "pipelines whose step list holds 1-150 elements (rows of the rule table, scalar steps, group steps holding further rows and further groups, to depth 3) as JSON-flow or block YAML: every element's kind equals the rule table's in its position, and the returned warning tree holds exactly one unknown-type sentinel per element the table sends to 'unknown type' and one inference sentinel per element it sends to 'failed inference' (none when every element is known) - no element's warning is dropped or merged however many precede it; non-trivial = >= 33 unknown elements in one list, or unknown elements inside a group; distinct by document text")
 
 func TestPropStepLists(t *testing.T) {
 	knownScalar := map[string]string{"wait": doc.KWait, "waiter": doc.KWait, "block": doc.KInput, "input": doc.KInput, "manual": doc.KInput}
@@ -423,7 +423,7 @@ func TestPropStepLists(t *testing.T) {
 			cause error
 			sub   []elem
 		}
-		var nUnknownType, nInference, inGroup, maxUnknownInList int
+		var nUnknownType, nInference, inGroup, maxUnknownInList, nestedGroups int
 		var genList func(depth int, n int, unknownBias int) []elem
 		genList = func(depth, n, unknownBias int) []elem {
 			var out []elem
@@ -440,8 +440,12 @@ func TestPropStepLists(t *testing.T) {
 						e.kind, e.cause = doc.KUnknown, pipeline.ErrUnknownStepType
 					}
 					out = append(out, e)
-				case c == 1 && depth == 0:
-					sub := genList(1, rapid.IntRange(0, 6).Draw(t, "ngroup"), unknownBias)
+				case c == 1 && depth < 3:
+					// a group; groups nest (a group may hold groups, to depth 3)
+					sub := genList(depth+1, rapid.IntRange(0, 6-2*depth).Draw(t, "ngroup"), unknownBias)
+					if depth > 0 {
+						nestedGroups++
+					}
 					parts := make([]string, len(sub))
 					for i, s := range sub {
 						parts[i] = s.json
@@ -456,9 +460,6 @@ func TestPropStepLists(t *testing.T) {
 							r.Mask, r.Type = 0, "<absent>"
 						}
 					}
-					if r.Mask&(1<<9) != 0 && depth > 0 {
-						r.Mask &^= 1 << 9 // no group inside a group
-					}
 					has := func(k string) bool {
 						for i, kk := range kindKeys {
 							if kk == k {
@@ -468,11 +469,6 @@ func TestPropStepLists(t *testing.T) {
 						return false
 					}
 					kind, cause := expected(has, r.Type, r.Type != "<absent>")
-					if kind == doc.KGroup && depth > 0 {
-						// a group by type inside a group: leave that corner to the table test
-						r.Type = "command"
-						kind, cause = doc.KCommand, nil
-					}
 					txt := r.text() // {"steps": [{...}]}
 					txt = strings.TrimSuffix(strings.TrimPrefix(txt, `{"steps": [`), "]}")
 					out = append(out, elem{json: txt, kind: kind, cause: cause})
@@ -541,7 +537,10 @@ func TestPropStepLists(t *testing.T) {
 		if nUnknownType+nInference == 0 && err != nil {
 			t.Fatalf("every step is of a known kind but Parse warns: %v\n%s", err, text)
 		}
-		nt := maxUnknownInList >= 33 || inGroup > 0
+		if nestedGroups > 0 {
+			recLists.Class("group-inside-group")
+		}
+		nt := maxUnknownInList >= 33 || inGroup > 0 || nestedGroups > 0
 		cls := "unknown-in-one-list<33"
 		if maxUnknownInList >= 33 {
 			cls = "unknown-in-one-list>=33"
